@@ -207,7 +207,13 @@ pub struct Limited<S: crustabri::sat::SatSolver> {
     pub inner: S,
     pub calls: usize,
     pub limit: usize,
+    /// literals received so far (the embedded solver allocates outside the Rust allocator, so the
+    /// memory guard cannot see a runaway encoding: it is stopped here instead)
+    pub literals: usize,
 }
+
+/// literals one solver object may receive (the largest legitimate object of any check stays far below)
+pub const LITERAL_LIMIT: usize = 50_000_000;
 
 pub type LimitedCadical = Limited<CadicalSolver>;
 
@@ -215,6 +221,10 @@ pub const CADICAL_CALL_LIMIT: usize = 20_000;
 
 impl<S: crustabri::sat::SatSolver> crustabri::sat::SatSolver for Limited<S> {
     fn add_clause(&mut self, cl: Vec<crustabri::sat::Literal>) {
+        self.literals += cl.len() + 1;
+        if self.literals > LITERAL_LIMIT {
+            panic!("{}: more than {} literals added to one solver object (runaway encoding)", crate::choicesat::CALL_LIMIT_MARK, LITERAL_LIMIT);
+        }
         self.inner.add_clause(cl)
     }
     fn solve(&mut self) -> crustabri::sat::SolvingResult {
@@ -239,7 +249,7 @@ impl<S: crustabri::sat::SatSolver> crustabri::sat::SatSolver for Limited<S> {
 }
 
 pub fn cadical_factory() -> Box<SatSolverFactoryFn> {
-    Box::new(|| Box::new(Limited { inner: CadicalSolver::default(), calls: 0, limit: CADICAL_CALL_LIMIT }))
+    Box::new(|| Box::new(Limited { inner: CadicalSolver::default(), calls: 0, limit: CADICAL_CALL_LIMIT, literals: 0 }))
 }
 
 /// Solver objects, dispatched exactly as `crustabri solve` does.
